@@ -94,6 +94,7 @@ def kmsg_path_ignores_silencing(ctx):
 
 
 def run(ctx):
+    saved_context_is_a_copy(ctx, "C17")
     # locals / parameters the rules below refer to by name (a rename makes the analysis 'broken', never a violation)
     ctx.anchor(ctx.fn1('Oomd::BaseKillPlugin::tryToKillCgroup'), 'nrKilled', 'cgroupPath', 'killUuid', 'target')
     ctx.anchor(ctx.fn1('Oomd::BaseKillPlugin::tryToLogAndKillCgroup'), 'nrKilled', 'maybeNrKilled', 'cgroupPath', 'actionContext', 'killUuid')
